@@ -150,7 +150,13 @@ def check_C04(tier, seed):
                    "round initiation/joining with extraction and sends; safety + round completion under fairness", workers=8, timeout=900)
         c.mc_phase("GvtRound.tla", "GvtRound_6.cfg", "2 threads, 6 messages with equal timestamps, 1 round (the budget needed to expose an accumulator that "
                    "misses extractions)", workers=16, timeout=900, heap="8g")
+        # the distributed part (colours, per-colour message counting, reduce-scatter of sent counts, wait, all-reduce), one worker per rank
+        c.mc_phase("GvtDist.tla", "GvtDist_q.cfg", "GvtDist: 2 ranks, 3 messages (local and remote sends), 1 round: every interleaving of the node phases of gvt.c with "
+                   "extractions, sends, deliveries of messages and of GVT_START/GVT_DONE; safety, agreement, monotonicity, exact drain of the old colour, round "
+                   "completion under fairness", workers=8, timeout=900, heap="8g")
         if tier == "thorough":
+            c.mc_phase("GvtDist.tla", "GvtDist_t.cfg", "GvtDist: 2 ranks, 4 messages, 2 consecutive rounds (both colours)", workers=16, timeout=3600, heap="16g")
+            c.mc_phase("GvtDist.tla", "GvtDist_3.cfg", "GvtDist: 3 ranks, 3 messages, 1 round", workers=16, timeout=3600, heap="16g")
             c.mc_phase("GvtRound.tla", "GvtRound_t.cfg", "2 threads, 4 messages, timestamps 1..3, 2 consecutive rounds", workers=16, timeout=1800, heap="8g")
             c.mc_phase("GvtRound.tla", "GvtRound_3.cfg", "3 threads, 3 messages, 1 round", workers=16, timeout=1800, heap="8g")
         c.run(_models(tier, seed, ["mixed", "fanout", "zerodelay", "ties"], 3, 24, "small", "medium"), 4 if tier == "quick" else 12, emphasis=em)
@@ -743,6 +749,8 @@ def check_C02(tier, seed):
     try:
         c.build(dist=True)
         _tw_mc_dist(c, tier)
+        c.mc_phase("GvtDist.tla", "GvtDist_q.cfg", "GvtDist: the distributed GVT (colours, message counting, reductions) on 2 ranks, 3 messages, 1 round", workers=8,
+                   timeout=900, heap="8g")
         # the real code (renamed rank copies over the fake MPI) on the same micro-models, under many schedules
         c.micro_phase("d1", 64 if tier == "quick" else 3000, ranks=2, threads=1)
         c.micro_phase("d2", 64 if tier == "quick" else 3000, ranks=2, threads=2)
